@@ -5,7 +5,7 @@ CFG = {'level': 'exploration',
  'technique': 'runtime monitoring with a lockstep reference model: generated go.mod / go.work files with uniquely tagged comments x sessions of '
               'documented edit operations on the real modfile.File / WorkFile and on ref/refmodfile (set/map model); oracle = strict re-parse of '
               'the formatted result vs. model directive multiset, plus tag lookup for comment survival',
- 'level_text': 'About 5.6e4 (quick) / 3e6 (thorough) sessions of 1..12 operations (all Add*/Drop*/Set* of go.mod and go.work, Cleanup before '
+ 'level_text': 'About 1.7e5 (quick) / 3e6 (thorough) sessions of 1..12 operations (all Add*/Drop*/Set* of go.mod and go.work, Cleanup before '
                'every bulk set and at the end) with valid arguments from a 4-path x 3-version universe on generated starting files (duplicates, '
                'mixed line/block forms, commented blocks, comments before the closing parenthesis, blank lines, one-line and empty blocks); after '
                'each session the formatted file must parse strictly, carry exactly the model\'s directives, and every line no operation targeted '
